@@ -15,18 +15,22 @@ META = {
     "level": "exploration",
     "rule": (
         "Cutting-stock instances: roll width 4-16 (<=20 thorough), 1-4 (<=5 thorough) piece types with integer sizes <= "
-        "width (duplicates allowed), demands 0-6 not all zero, plus the all-zero / empty edge; 60% of the instances draw "
-        "their sizes from the 'fractional LP bound' families (sizes just above W/3, W/4, W/2 mixed with small fillers, "
-        "DESIGN 2.9), the rest uniformly; numbers passed as int or integral float, sequences as list or tuple. Custom mode: "
-        "an explicit column pool (all maximal patterns of a drawn cutting-stock instance, a random sub-pool of them that "
-        "still covers every piece, or a generic 0-3 valued column set), initial columns = a covering subset of the pool, "
-        "pricing function = enumeration of the pool returning the column of most negative reduced cost 1 - duals.col (or "
-        "(None, 0)). Oracle: exact minimum number of rolls/columns by memoised DP over remaining-demand vectors "
-        "(vf.oracles.cutstock). For status OPTIMAL/FEASIBLE: patterns fit the width (custom: belong to the pool), counts "
-        "are positive ints, production >= demand, objective = total rolls (1e-6), OPTIMAL => total = optimum. "
-        "Non-trivial = exact LP bound of the instance is fractional (ceil(LP) > LP) or optimum > ceil(sum size*demand / W) "
-        "(custom: optimum > ceil(LP)). Distinct = canonical JSON of the case. solve_bp results with iterations > 0 fall in "
-        "the known class 'bp-after-branching'."
+        "width (duplicates allowed), demands 0-6 not all zero, plus the all-zero / empty edge; about 60% of the instances "
+        "draw their sizes from directed families (DESIGN 2.9): 'frac' = sizes just above W/3, W/4, W/2 mixed with small "
+        "fillers, 'dup' = repeated sizes, 'tiny' = a size-1/2 piece with demand <=2 next to such pieces on W>=10 (the last "
+        "improving column has reduced cost -1/(W//size)); the rest uniform; numbers passed as int or integral float, "
+        "sequences as list or tuple. Custom mode: an explicit column pool ('cs-like' = one-piece patterns + all maximal "
+        "patterns of a drawn instance with the one-piece patterns as initial columns, i.e. the path of the built-in "
+        "mode; all maximal patterns; a random sub-pool of them that still covers every piece; a generic 0-3 valued "
+        "column set), initial columns = a covering subset of the pool, pricing function = enumeration of the pool "
+        "returning the column of most negative reduced cost 1 - duals.col (or (None, 0) when none is negative). Oracle: "
+        "exact minimum number of rolls/columns by memoised DP over remaining-demand vectors (vf.oracles.cutstock). For "
+        "status OPTIMAL/FEASIBLE: patterns fit the width (custom: belong to the pool), counts are positive ints, "
+        "production >= demand, objective = total rolls (1e-6), OPTIMAL => total = optimum. Non-trivial = exact LP bound of "
+        "the instance is fractional (ceil(LP) > LP) or optimum > ceil(sum size*demand / W) (custom: optimum > ceil(LP)). "
+        "Distinct = canonical JSON of the case. solve_bp results with iterations > 0 fall in the known class "
+        "'bp-after-branching' (counted, not judged); solve_bp runs under a per-case step budget of 25x the work of "
+        "solve_cg on the same input."
     ),
     "assumptions": [
         "reference DP optimum (cross-checked against bin-packing B&B and multiset brute force in vf.selftest)",
@@ -36,13 +40,14 @@ META = {
 }
 
 # Work limits (sys.monitoring JUMP|BRANCH events inside solvor.cg / solvor.bp / solvor.utils.pricing), DESIGN 2.4.
-# solve_cg: max observed on /repo 0.47M (quick) / 3.9M (thorough) events -> fixed limit >= 100x that; never reached.
+# solve_cg: max observed on /repo 0.47M (quick) / 1.9M (thorough) events -> fixed limit >= 200x that; never reached.
 # solve_bp: the search after branching is the known-defective part (crawls through up to 10 000 nodes or does not
 # stop: 25 % of the branched calls need > 13M events, 15 % of all calls > 20M), so a fixed 100x limit would cost
 # ~100 s per hit.  The work of a *root-only* call (the only bp results outside the known class) is one column
-# generation, i.e. the work solve_cg does on the same instance (measured ratio <= 1.6, evidence size
+# generation, i.e. the work solve_cg does on the same instance (measured ratio <= 1.12, evidence size
 # 'bp-root-only-steps-per-100-cg-steps').  The bp limit is therefore set per case to 25x the events solve_cg needs
-# on the same input (floor 1M): deterministic, >= 15x everything outside the known class, and a hit costs ~0.3 s.
+# on the same input (floor 1M): deterministic, >= 22x everything outside the known class (a root-only call used at
+# most 4 % of its limit over the quick and thorough corpora, evidence size 'bp-root-only-steps-per-100-limit'); a hit costs ~0.3 s.
 STEP_LIMIT_CG = 400_000_000
 BP_FACTOR, BP_FLOOR = 25, 1_000_000
 
@@ -65,28 +70,41 @@ def _size(draw, W):
     return max(1, min(W, s))
 
 
+def _cs_sizes(draw, W, n, fam):
+    """Piece sizes of one of the directed families (DESIGN 2.9) and a demand cap per piece (None = free)."""
+    caps = [None] * n
+    if fam == "uniform":
+        sizes = [draw(st.integers(1, W)) for _ in range(n)]
+    elif fam == "frac":
+        sizes = [_size(draw, W) for _ in range(n)]
+    elif fam == "dup":  # duplicates of one or two sizes, like [2,2,2,3]
+        base = [_size(draw, W) for _ in range(draw(st.integers(1, 2)))]
+        sizes = [draw(st.sampled_from(base)) for _ in range(n)]
+    else:  # "tiny": a size-1/2 piece with a small demand next to pieces whose one-piece patterns leave waste, so the
+        # last improving column has a reduced cost of only -1/(W // size) (late columns matter, DESIGN 2.9)
+        sizes = [_size(draw, W) for _ in range(n)]
+        j = draw(st.integers(0, n - 1))
+        sizes[j] = draw(st.sampled_from([1, 1, 2]))
+        caps[j] = 2
+    return sizes, caps
+
+
 @st.composite
 def instances(draw, tier="quick"):
     wmax, nmax = (20, 5) if tier == "thorough" else (16, 4)
-    family = draw(st.sampled_from(["uniform", "uniform", "frac", "frac", "frac", "dup", "edge"]))
-    W = draw(st.integers(4, wmax))
+    family = draw(st.sampled_from(["uniform", "uniform", "frac", "frac", "frac", "dup", "tiny", "edge"]))
+    W = draw(st.integers(10 if family == "tiny" else 4, wmax))
     if family == "edge":
         n = draw(st.integers(0, 3))
         sizes = [draw(st.integers(1, W)) for _ in range(n)]
         demands = [0] * n
     else:
-        n = draw(st.integers(1, nmax))
-        if family == "uniform":
-            sizes = [draw(st.integers(1, W)) for _ in range(n)]
-        elif family == "frac":
-            sizes = [_size(draw, W) for _ in range(n)]
-        else:  # duplicates of one or two sizes, like [2,2,2,3]
-            base = [_size(draw, W) for _ in range(draw(st.integers(1, 2)))]
-            sizes = [draw(st.sampled_from(base)) for _ in range(n)]
+        n = draw(st.integers(2 if family == "tiny" else 1, nmax))
+        sizes, caps = _cs_sizes(draw, W, n, family)
         dmax = 6 if n <= 4 else 4
-        demands = [draw(st.integers(0, dmax)) for _ in range(n)]
+        demands = [draw(st.integers(0, dmax if caps[i] is None else caps[i])) for i in range(n)]
         if not any(demands):
-            demands[draw(st.integers(0, n - 1))] = draw(st.integers(1, dmax))
+            demands[draw(st.integers(0, n - 1))] = draw(st.integers(1, 2))
     return {
         "family": family,
         "W": W,
@@ -99,22 +117,28 @@ def instances(draw, tier="quick"):
 
 @st.composite
 def pools(draw, tier="quick"):
-    family = draw(st.sampled_from(["maximal", "subpool", "subpool", "generic"]))
+    family = draw(st.sampled_from(["cs-like", "cs-like", "maximal", "subpool", "subpool", "generic"]))
     W, sizes = None, None
+    homog = []
     if family == "generic":
         m = draw(st.integers(1, 4))
+        caps, fam = [None] * m, None
         k = draw(st.integers(1, 8 if tier == "thorough" else 6))
         pool = [[draw(st.sampled_from([0, 0, 1, 1, 2, 3])) for _ in range(m)] for _ in range(k)]
         for i in range(m):  # every row is covered by some column (by construction, no filtering)
             if not any(c[i] for c in pool):
                 pool[draw(st.integers(0, k - 1))][i] = draw(st.integers(1, 2))
     else:
-        W = draw(st.integers(4, 16 if tier == "thorough" else 12))
-        m = draw(st.integers(1, 4))
-        fam = draw(st.sampled_from(["uniform", "frac"]))
-        sizes = [draw(st.integers(1, W)) if fam == "uniform" else _size(draw, W) for _ in range(m)]
+        fam = draw(st.sampled_from(["uniform", "frac", "frac", "tiny"]))
+        W = draw(st.integers(10 if fam == "tiny" else 4, 16 if tier == "thorough" or fam == "tiny" else 12))
+        m = draw(st.integers(2 if fam == "tiny" else 1, 4 if tier == "thorough" or fam != "tiny" else 3))
+        sizes, caps = _cs_sizes(draw, W, m, fam)
         full = [list(p) for p in CS.maximal_patterns(W, sizes)]
-        if family == "maximal" or len(full) <= 1:
+        if family == "cs-like":
+            # the pool solve_cg's own cutting-stock mode works on: one-piece patterns first, then every maximal one
+            homog = [[W // sizes[j] if i == j else 0 for i in range(m)] for j in range(m)]
+            pool = homog + full
+        elif family == "maximal" or len(full) <= 1:
             pool = full
         else:
             keep = draw(st.lists(st.booleans(), min_size=len(full), max_size=len(full)))
@@ -130,23 +154,30 @@ def pools(draw, tier="quick"):
     pool = uniq
     m = len(pool[0])
     dmax = 6
-    demands = [draw(st.integers(0, dmax)) for _ in range(m)]
+    demands = [draw(st.integers(0, dmax if caps[i] is None else caps[i])) for i in range(m)]
     if not any(demands):
-        demands[draw(st.integers(0, m - 1))] = draw(st.integers(1, dmax))
-    # initial columns: for every row one pool column that serves it, plus optional extras (indices into pool)
+        demands[draw(st.integers(0, m - 1))] = draw(st.integers(1, 2))
     init = []
-    for i in range(m):
-        if any(pool[j][i] for j in init):
-            continue
-        cands = [j for j, c in enumerate(pool) if c[i]]
-        init.append(cands[draw(st.integers(0, len(cands) - 1))])
-    for j in draw(st.lists(st.integers(0, len(pool) - 1), max_size=2)):
-        if j not in init:
-            init.append(j)
-    if draw(st.booleans()):
-        init = sorted(init)
+    if family == "cs-like":
+        # start exactly like the cutting-stock mode: the one-piece pattern of every demanded piece
+        for j in range(m):
+            if demands[j] > 0 and pool.index(homog[j]) not in init:
+                init.append(pool.index(homog[j]))
+    else:
+        # for every row one pool column that serves it, plus optional extras (indices into pool)
+        for i in range(m):
+            if any(pool[j][i] for j in init):
+                continue
+            cands = [j for j, c in enumerate(pool) if c[i]]
+            init.append(cands[draw(st.integers(0, len(cands) - 1))])
+        for j in draw(st.lists(st.integers(0, len(pool) - 1), max_size=2)):
+            if j not in init:
+                init.append(j)
+        if draw(st.booleans()):
+            init = sorted(init)
     return {
         "family": family,
+        "sizes_from": fam,
         "W": W,
         "sizes": sizes,
         "pool": pool,
@@ -306,7 +337,7 @@ def _custom_case(desc, ctx):
     if optimum is None or lp is None:
         raise RuntimeError(f"custom pool does not cover a demanded row: {desc}")
     frac = lp.denominator != 1
-    ctx.label(desc["family"], f"m={m}", frac and "lp-fractional", optimum > CS.ceil_frac(lp) and "optimum>ceil(LP)",
+    ctx.label(desc["family"], desc.get("sizes_from") and "sizes-" + desc["sizes_from"], f"m={m}", frac and "lp-fractional", optimum > CS.ceil_frac(lp) and "optimum>ceil(LP)",
               desc["none_style"] and "pricing-returns-None", len(desc["init"]) == len(pool) and "init=whole-pool")
     ctx.nontrivial(frac or optimum > CS.ceil_frac(lp))
     ctx.size("pool", len(pool))
@@ -381,7 +412,7 @@ KNOWN_CLASSES = {"bp-after-branching": bp_after_branching}
 
 SUBS = [
     Sub("cg_cutting_stock", run_cg, strategy=lambda tier: instances(tier), quick=450, thorough=3000, workers_quick=4, crash="inconclusive"),
-    Sub("bp_cutting_stock", run_bp, strategy=lambda tier: instances(tier), quick=300, thorough=1500, workers_quick=6, crash="inconclusive"),
+    Sub("bp_cutting_stock", run_bp, strategy=lambda tier: instances(tier), quick=250, thorough=1000, workers_quick=6, crash="inconclusive"),
     Sub("cg_custom_pricing", run_cg_custom, strategy=lambda tier: pools(tier), quick=300, thorough=2000, workers_quick=2, crash="inconclusive"),
-    Sub("bp_custom_pricing", run_bp_custom, strategy=lambda tier: pools(tier), quick=250, thorough=1500, workers_quick=4, crash="inconclusive"),
+    Sub("bp_custom_pricing", run_bp_custom, strategy=lambda tier: pools(tier), quick=250, thorough=1200, workers_quick=4, crash="inconclusive"),
 ]
